@@ -4,9 +4,9 @@ namespace Refinery.Gen.QueryAuth
 
 def errAuthNeededMsg : String := "unknown API key - check your credentials"
 def errAuthNeededStatus : Int := 400
-def queryRouteCount : Int := 5
-def queryRoutes := ["/query/allrules/{format}", "/query/configmetadata", "/query/peerrules/{format}", "/query/rules/{format}/{dataset}", "/query/trace/{traceID}"] ++ ([] : List String)
-def queryRoutesOutsideSubrouter : Int := 1
+def queryRouteCount : Int := 4
+def queryRoutes := ["/query/allrules/{format}", "/query/configmetadata", "/query/rules/{format}/{dataset}", "/query/trace/{traceID}"] ++ ([] : List String)
+def queryRoutesOutsideSubrouter : Int := 0
 def queryTokenHeader : String := "X-Honeycomb-Refinery-Query"
 
 end Refinery.Gen.QueryAuth
